@@ -54,7 +54,9 @@ def run(tier):
         else:
             trace = os.path.join(work, "trace.ndjson")
             inp = {"dir": os.path.join(work, "d"), "nkeys": rng.choice([40, 400]) if kind == "sst" else rng.choice([60, 600]), "goroutines": ng,
-                   "calls": 400 if thorough else 150, "seed": SEED * 100 + i, "comp": i % 4}
+                   "calls": 400 if thorough else 150, "seed": SEED * 100 + i, "comp": (i // 2) % 4 if kind == "rio" else i % 4,
+                   # every other mmap execution reads a file that is cut inside its last record (failing reads next to succeeding ones)
+                   "cuttail": kind == "rio" and i % 2 == 1}
             with open(trace + ".in.json", "w") as f:
                 json.dump(inp, f)
             penv = dict(os.environ)
